@@ -67,12 +67,23 @@ def codec(res):
     """C10 and C11 share the enumerations; each files only the deviations labelled with its id."""
     q = res.tier == "quick"
     W.run_family(res, "MC_Codec_BytesQuick" if q else "MC_Codec_BytesFull", layer=W.CODEC)
+    W.run_family(res, "MC_Codec_DeepQuick" if q else "MC_Codec_DeepFull", layer=W.CODEC)
     W.run_family(res, "MC_Codec_Prefix", select=short_prefix_vectors if q else None, layer=W.CODEC)
     W.run_family(res, "MC_Codec_PacketsQuick" if q else "MC_Codec_PacketsFull", layer=W.CODEC)
     W.run_vectors(res, u16_file(), "u16-conversions", layer=W.CODEC)
     res.assumptions += ["'never reads outside the buffer' is observed as 'never panics' (safe Rust)",
                         "option names are compared ASCII-case-insensitively in the specification; Unicode characters whose lowercase is ASCII (KELVIN SIGN) are outside the enumerated alphabet",
                         "ERROR without a terminated or well-formed message decodes with the message '(no message)' (the code's documented behaviour, covered by a baseline test)"]
+
+
+def c17(res):
+    fams = ["MC_Cli_STokQuick", "MC_Cli_SItemQuick", "MC_Cli_CTokQuick", "MC_Cli_CItemQuick"] if res.tier == "quick" \
+        else ["MC_Cli_STokFull", "MC_Cli_SItemFull", "MC_Cli_CTokFull", "MC_Cli_CItemFull"]
+    for f in fams:
+        W.run_family(res, f, layer=W.CLI)
+    res.assumptions += ["-h/--help is excluded (it terminates the process)",
+                        "what a token means as a value (address, port, existing directory, u8) is tabulated over a fixed token universe",
+                        "the client treats every non-flag token, including argv[0], as the file name (recorded behaviour)"]
 
 
 def c18(res):
@@ -84,7 +95,7 @@ def c18(res):
                         "fill() after end of file yields further empty pieces (recorded behaviour; the property constrains the bytes handed out)"]
 
 
-CHECKS = {"C10": codec, "C11": codec, "C18": c18, "C01": c01, "C02": c02, "C04": c04, "C07": c07, "C08": c08, "C13": c13, "C15": c15, "C16": c16}
+CHECKS = {"C17": c17, "C10": codec, "C11": codec, "C18": c18, "C01": c01, "C02": c02, "C04": c04, "C07": c07, "C08": c08, "C13": c13, "C15": c15, "C16": c16}
 
 
 def setup():
